@@ -17,10 +17,14 @@ import time
 
 ROOT = os.path.dirname(os.path.dirname(os.path.abspath(__file__)))
 SPEC = os.path.join(ROOT, "spec")
-HARNESS = os.path.join(ROOT, "harness")
-WORK = os.path.join(ROOT, "work")
-REPLAY = os.path.join(ROOT, "replay")
-EVIDENCE = os.path.join(ROOT, "evidence")
+# Mutant testing (tools/mutcheck) points these at a scratch copy so that the
+# registered checks' own outputs under /verif are never disturbed.
+HARNESS = os.environ.get("VERIF_HARNESS_DIR") or os.path.join(ROOT, "harness")
+_SCRATCH = os.environ.get("VERIF_SCRATCH") or ROOT
+WORK = os.path.join(_SCRATCH, "work")
+REPLAY = os.path.join(_SCRATCH, "replay")
+EVIDENCE = os.path.join(_SCRATCH, "evidence")
+REPO = os.environ.get("VERIF_REPO") or "/repo"
 TLA_CP = "/opt/veriftools/tla/tla2tools.jar:/opt/veriftools/tla/CommunityModules-deps.jar"
 
 
